@@ -1350,15 +1350,15 @@ def _op_once(task, given, rng, focus):
             warnings.simplefilter('ignore')
             if op == 'tdvp':
                 if task['variant'] == 'single':
-                    EV.integrate_local_singlesite(H, psi, 0.1j, 1, numiter_lanczos=4)
+                    EV.integrate_local_singlesite(H, psi, 0.1j, int(task.get('nsteps', 1)), numiter_lanczos=4)
                 else:
-                    EV.integrate_local_twosite(H, psi, 0.1j, 1, numiter_lanczos=4, tol_split=float(given.get('tolsplit', 0.0)))
+                    EV.integrate_local_twosite(H, psi, 0.1j, int(task.get('nsteps', 1)), numiter_lanczos=4, tol_split=float(given.get('tolsplit', 0.0)))
             else:
                 # DMRG needs a Hermitian operator for a meaningful Lanczos run; structural properties do not depend on it
                 if task['variant'] == 'single':
-                    MI.calculate_ground_state_local_singlesite(H, psi, 1, numiter_lanczos=4)
+                    MI.calculate_ground_state_local_singlesite(H, psi, int(task.get('nsteps', 1)), numiter_lanczos=4)
                 else:
-                    MI.calculate_ground_state_local_twosite(H, psi, 1, numiter_lanczos=4, tol_split=float(given.get('tolsplit', 0.0)))
+                    MI.calculate_ground_state_local_twosite(H, psi, int(task.get('nsteps', 1)), numiter_lanczos=4, tol_split=float(given.get('tolsplit', 0.0)))
         results = [(psi, 'mps', op)]; untouched = ([H], snap); boundary = (psi, old, n0); pure = False
     elif op == 'hamiltonian':
         model, L = task['model'], task['L']
